@@ -49,12 +49,18 @@ def fixed_cases(tier: str):
     from hv import samples
     out = [dict(c, cfg={"mode": m, "mp": False, "inc_last": False}) for c in samples.sample_cases(tier) for m in ("parse", "load")]
     if tier == "thorough":
+        out = out + [{"kind": "repo_tests", "file": f} for f in ("test_correlation.py", "test_trace_analysis.py")]
         out = out + [{"files": {"rank0.json": gen_sim.huge_trace(21)}, "cfg": {"mode": "load", "mp": False, "inc_last": False, "parser": "default"}, "time_unit": 1}]          # row ids beyond int16
     return out
 
 
 def run_case(case: Dict[str, Any], ctx: Any) -> core.CaseResult:
     res = core.CaseResult()
+    if case.get("kind") == "repo_tests":
+        from hv.mon import repotests
+        res.key = "repo_tests:" + case["file"]
+        repotests.run(case["file"], res, ctx)
+        return res
     cfg = case["cfg"]
     models = {}
     for fn, tr in case["files"].items():
